@@ -108,6 +108,17 @@ func (g G) ListLen(max int) int {
 	if max > 12 && g.Chance(3, 4) {
 		return g.Intn(12)
 	}
+	if g.Chance(1, 2) { // counts next to powers of two (buffer growth, 8-bit products) that fit
+		var bs []int
+		for _, b := range []int{15, 16, 17, 31, 32, 33, 63, 64, 65, 127, 128, 129, 254, 255} {
+			if b <= max {
+				bs = append(bs, b)
+			}
+		}
+		if len(bs) > 0 {
+			return bs[g.Intn(len(bs))]
+		}
+	}
 	return g.Intn(max + 1)
 }
 
